@@ -91,3 +91,7 @@ Fixpoint wg_ops (fuel : nat) (ops : list N) (s : wg) (t : N) : args :=
 
 Definition run_wg_run (a : args) : args :=
   wg_ops (length (arg a 1)) (arg a 1) (wg_init (argn a 0)) (argn a 0).
+
+(* wg_race <trials>: real two-thread races on the crate (harness/src/sync.rs); the model's answer is the property itself: no wake-up is
+   ever lost (Async/SyncProofs.v, C14_no_lost_wakeup) *)
+Definition run_wg_race (a : args) : args := [[0]].
